@@ -43,8 +43,8 @@ import (
 func TestMain(m *testing.M) { evid.Main(m, "C12") }
 
 const (
-	ioBound      = 15 * time.Second // a wait that only ends this way means the server hung
-	releaseBound = 15 * time.Second
+	ioBound      = 10 * time.Second // a wait that only ends this way means the server hung
+	releaseBound = 6 * time.Second
 	pathLive     = "/c12/live"
 	pathMLive    = "/c12/mlive"
 	pathMissing  = "/c12/missing"
@@ -310,6 +310,7 @@ type outcome struct {
 	refused, n455                    int
 	framesSeen                       int
 	closedByTeardown                 bool
+	consumePanics                    int
 }
 
 func (w *world) resolve(sym string, pubN int64) string {
@@ -386,7 +387,8 @@ func (w *world) runPlan(p *plan) (out outcome, rep *report, fail *failure, err e
 	base := map[string]int{pathLive: srv.Consumers(pathLive), pathMLive: srv.Consumers(pathMLive)}
 	conns0 := srv.RtspConns()
 	streams0, _ := srv.Streams()
-	panics0 := w.s.LogCount("panic")
+	panics0 := w.s.LogCount("session panic")
+	cpanics0 := w.s.LogCount("consume routine panic")
 	if base[pathLive] < 0 || base[pathMLive] < 0 {
 		return out, rep, nil, fmt.Errorf("machinery: a live stream vanished (live=%d mlive=%d)", base[pathLive], base[pathMLive])
 	}
@@ -559,6 +561,9 @@ func (w *world) runPlan(p *plan) (out outcome, rep *report, fail *failure, err e
 				}
 			case r.CSeq() == reqCSeq:
 				got = append(got, r)
+				if s.Method == "PLAY" && r.Status >= 200 && r.Status < 300 {
+					playOK = true // media may follow the 200 immediately, before the probe is answered
+				}
 				if !withProbe {
 					probed = true
 				}
@@ -665,7 +670,7 @@ func (w *world) runPlan(p *plan) (out outcome, rep *report, fail *failure, err e
 				_, e := c.ReadItemTimeout(time.Until(deadline))
 				if e != nil {
 					var fe *rtspc.FramingError
-					if errors.As(e, &fe) {
+					if errors.As(e, &fe) && !fe.Truncated { // a last frame cut off by the close is not a malformed stream
 						return out, rep, bad("framing", "after half-close: %v", e), nil
 					}
 					if errors.Is(e, rtspc.ErrTimeout) {
@@ -687,8 +692,14 @@ func (w *world) runPlan(p *plan) (out outcome, rep *report, fail *failure, err e
 	if st, _ := srv.Streams(); st != streams0 {
 		return out, rep, bad("registry", "after the connection ended: %d streams registered, before the case %d", st, streams0), nil
 	}
-	if n := w.s.LogCount("panic"); n != panics0 {
-		return out, rep, bad("panic", "the server logged a panic during the case:\n%s", tail(w.s.Logs(), 1500)), nil
+	if n := w.s.LogCount("session panic"); n != panics0 {
+		return out, rep, bad("panic", "the RTSP session goroutine panicked during the case:\n%s", tail(w.s.Logs(), 1500)), nil
+	}
+	if n := w.s.LogCount("consume routine panic"); n != cpanics0 {
+		// outside the statement (the panic is recovered and the consumer is released, which is
+		// checked above); kept as an observation: process() sets s.conn = nil while the delivery
+		// goroutine may still be inside tcpConsumer.Consume
+		out.consumePanics = int(n - cpanics0)
 	}
 	return out, rep, nil, nil
 }
@@ -740,6 +751,9 @@ func record(p *plan, out outcome) {
 	}
 	if out.closedByTeardown {
 		evid.Class("ended by TEARDOWN")
+	}
+	if out.consumePanics > 0 {
+		evid.Class("observation: recovered nil-conn panic in the delivery goroutine at session end")
 	}
 	if (out.reachedPlaying || out.reachedRecording) && out.refused > 0 {
 		b, _ := json.Marshal(p)
